@@ -28,6 +28,11 @@ may change it only as its template instruction explains (INC (n), MV (BP|PX|PY),
 must not touch it, whatever the base pointer is (reti / frame / state).  The model's own timer targets ("nm","ns")
 are used as expiry witnesses: an expiry must leave its status bit pending (not-lost).  With the machine's keyboard
 interrupt enable off ("kbirq": false) no key event may raise KEYI (gate).
+
+Round 3: the monitor is configuration-blind -- a Python run on the fast_mode path and a Rust run driven with batched
+CoreRuntime::step(n) calls arrive as the same kind of instruction-by-instruction records and are judged by the same
+rules.  For Rust, requests that were co-candidates of a delivery and are still pending after its RETI (which clears
+exactly the served status bit) keep their bounded-response obligation.
 """
 
 from __future__ import annotations
@@ -205,10 +210,11 @@ class Monitor:
                 self.v("frame", ctx, "delivery wrote stack bytes outside the 5-byte frame",
                        f"step {k}: changed offsets {[hex(self.lo + i) for i in other[:8]]}")
             self.frames.append({"pre": dict(cur), "regs": {r: (B if self.order == "pre" else A)[r] for r in REGS},
-                                "src": src, "cand": cand & 0x0F, "step": k, "imr_written": False})
+                                "src": src, "cand": cand & 0x0F, "step": k, "imr_written": False, "popped": 0})
             for bit in (1, 2, 4, 8):
                 if cand & bit:
-                    self.req.pop(bit, None)
+                    if self.req.pop(bit, None) is not None:
+                        self.frames[-1]["popped"] |= bit
                 elif bit in self.req and (isr_at & bit):
                     self.req[bit][1] = True
             served |= cand & 0x0F
@@ -405,6 +411,16 @@ class Monitor:
             for bit in (1, 2, 4, 8):
                 if fell & bit:
                     self.req.pop(bit, None)
+        if reti_frame is not None and self.model == "rs":
+            # Rust serves ONE source per delivery: its RETI clears exactly the delivered status bit (documented in
+            # lib.rs / eval.rs).  Event-raised requests that were only co-candidates of that delivery and are still
+            # pending after the return have not been taken yet: they keep their obligation.  (Python has no such
+            # bookkeeping -- one delivery stands for every candidate -- so nothing is re-registered there.)
+            again = int(reti_frame.get("popped", 0)) & A["isr"] & 0x0F
+            for bit in (1, 2, 4, 8):
+                if again & bit and bit not in self.req:
+                    self.req[bit] = [0, False]
+                    self.labels.add("still-pending-after-reti")
 
         # ---------------- bounded response for enabled pending requests
         elig = 0
